@@ -25,10 +25,12 @@ package io
 //@   requires dec != nil && 0 <= dec.head && dec.head <= dec.tail && dec.tail <= len(dec.buf)
 //@   requires dec.reader != nil ==> ghost.rpos[ival(dec.reader)] >= dec.tail &&
 //@       forall(i, dec.head, dec.tail, dec.buf[i] == ghost.rstream[ival(dec.reader)][ghost.rpos[ival(dec.reader)] - dec.tail + i])
+//@   requires [reader_mode_buffer_has_room] dec.reader != nil ==> dec.buf == nil || len(dec.buf) > 0
 //@   stable dec.reader
 //@   ensures [window_well_formed] 0 <= dec.head && dec.head <= dec.tail && dec.tail <= len(dec.buf)
 //@   ensures [window_mirrors_the_stream] dec.reader != nil ==> ghost.rpos[ival(dec.reader)] >= dec.tail &&
 //@       forall(i, dec.head, dec.tail, dec.buf[i] == ghost.rstream[ival(dec.reader)][ghost.rpos[ival(dec.reader)] - dec.tail + i])
+//@   ensures [reader_mode_buffer_has_room] dec.reader != nil ==> dec.buf == nil || len(dec.buf) > 0
 //@   ensures [error_is_sticky] old(dec.Error) != nil ==> dec.Error != nil
 //@   ensures [memory_input_is_never_written] dec.reader == nil ==> same(dec.buf, old(dec.buf)) && dec.tail == old(dec.tail)
 
@@ -39,8 +41,10 @@ package io
 //@   prop C04 C05
 //@   nopanic
 //@   requires dec != nil && 0 <= dec.tail && dec.tail <= len(dec.buf)
+//@   requires [reader_mode_buffer_has_room] dec.reader != nil ==> dec.buf == nil || len(dec.buf) > 0
 //@   stable dec.reader
 //@   modifies @DECWIN, dec.buf[*]
+//@   ensures [reader_mode_buffer_has_room] dec.reader != nil ==> len(dec.buf) > 0
 //@   ensures [memory_mode_is_end_of_input] dec.reader == nil ==> !result && dec.head == dec.tail && dec.tail == old(dec.tail) && dec.Error != nil && same(dec.buf, old(dec.buf))
 //@   ensures [refill_continues_the_stream] dec.reader != nil && result ==> dec.head == 0 && 0 < dec.tail && dec.tail <= len(dec.buf) &&
 //@       ghost.rpos[ival(dec.reader)] == old(ghost.rpos[ival(dec.reader)]) + dec.tail &&
